@@ -175,6 +175,55 @@ def _numeric_value(val):
     return total
 
 
+def _check_strtobool_table(ctx, prog, um, sb, table):
+    """The vocabulary as a constant table and the shape of the lookup (when the routine is written that way)."""
+    for w in sorted(DOC_TRUE | DOC_FALSE):
+        exp = w in DOC_TRUE
+        if w not in table:
+            ctx.violate("R2", f"documented word '{w}' is missing from STRTOBOOL", relpath=um.relpath, function="iodata.utils.STRTOBOOL", construct=f"missing {w!r}")
+        elif table[w] is not exp:
+            ctx.violate("R2", f"word '{w}' maps to {table[w]!r}, documented {exp}", relpath=um.relpath, function="iodata.utils.STRTOBOOL", construct=f"{w!r}: {table[w]!r}")
+        else:
+            ctx.ok("R2", f"'{w}' -> {exp}", um.relpath)
+    for w in sorted(set(table) - DOC_TRUE - DOC_FALSE, key=repr):
+        ctx.violate("R2", f"undocumented word {w!r} accepted by STRTOBOOL", relpath=um.relpath, function="iodata.utils.STRTOBOOL", construct=f"extra {w!r}")
+    # lookup shape
+    p0 = sb.posparams[0]
+    lookups = []
+    for n in sb.own_nodes():
+        key = None
+        if isinstance(n, ast.Call) and isinstance(n.func, ast.Attribute) and n.func.attr == "get" and isinstance(n.func.value, ast.Name) and n.func.value.id == "STRTOBOOL":
+            key = n.args[0] if n.args else None
+            if len(n.args) > 1 and not (isinstance(n.args[1], ast.Constant) and n.args[1].value is None):
+                ctx.violate("R2", "STRTOBOOL.get has a non-None default (a miss no longer raises)", sb, n)
+        elif isinstance(n, ast.Subscript) and isinstance(n.value, ast.Name) and n.value.id == "STRTOBOOL":
+            key = n.slice
+        if key is not None:
+            lookups.append((n, key))
+    if len(lookups) != 1:
+        ctx.violate("R2", f"expected exactly one STRTOBOOL lookup in strtobool, found {len(lookups)}", sb, sb.node, construct="lookups")
+    for n, key in lookups:
+        k = deref(sb, key)
+        good = isinstance(k, ast.Call) and isinstance(k.func, ast.Attribute) and k.func.attr == "lower" and isinstance(k.func.value, ast.Name) and k.func.value.id == p0 and not k.args
+        if good:
+            ctx.ok("R2", "lookup key is value.lower()", sb.where)
+        else:
+            ctx.violate("R2", f"lookup key is `{src_of(k)}`, not `{p0}.lower()` (accepts other/fewer strings than documented)", sb, n)
+    raises = [s for s in walk_stmts(sb.body) if isinstance(s, ast.Raise)]
+    if any(raises_class(r) == "ValueError" for r in raises):
+        ctx.ok("R2", "a miss raises ValueError", sb.where)
+    else:
+        ctx.violate("R2", "strtobool never raises ValueError", sb, sb.node, construct="no raise ValueError")
+    for n in sb.own_nodes():
+        if isinstance(n, ast.Return) and isinstance(n.value, ast.Constant):
+            ctx.violate("R2", "strtobool returns a constant (default answer for unknown words)", sb, n)
+        if isinstance(n, ast.Try):
+            for h in n.handlers:
+                if not any(isinstance(s, ast.Raise) for s in walk_stmts(h.body)):
+                    ctx.violate("R2", "exception handler in strtobool that does not re-raise", sb, h)
+
+
+
 def _check_volume_conditioning(ctx, vf):
     """Nearly and exactly dependent pairs of vectors: the area is small or zero, never nan, and accurate.  A formula
     that is algebraically the root of the Gram determinant but subtracts large squares (|a|^2 |b|^2 - (a.b)^2) passes
@@ -273,57 +322,13 @@ def run(ctx):
     ctx.rule("R2", "string-to-boolean vocabulary", "a missing/extra word changes which strings are accepted")
     um = prog.module("iodata.utils")
     sb = prog.func("iodata.utils.strtobool")
+    table_ok = True
     try:
         table = ce.global_value(um, "STRTOBOOL")
-    except NotConstant as exc:
-        raise AnalysisError(f"STRTOBOOL is not a constant: {exc}") from exc
-    if not isinstance(table, dict):
-        raise AnalysisError("STRTOBOOL is not a dict")
-    for w in sorted(DOC_TRUE | DOC_FALSE):
-        exp = w in DOC_TRUE
-        if w not in table:
-            ctx.violate("R2", f"documented word '{w}' is missing from STRTOBOOL", relpath=um.relpath, function="iodata.utils.STRTOBOOL", construct=f"missing {w!r}")
-        elif table[w] is not exp:
-            ctx.violate("R2", f"word '{w}' maps to {table[w]!r}, documented {exp}", relpath=um.relpath, function="iodata.utils.STRTOBOOL", construct=f"{w!r}: {table[w]!r}")
-        else:
-            ctx.ok("R2", f"'{w}' -> {exp}", um.relpath)
-    for w in sorted(set(table) - DOC_TRUE - DOC_FALSE, key=repr):
-        ctx.violate("R2", f"undocumented word {w!r} accepted by STRTOBOOL", relpath=um.relpath, function="iodata.utils.STRTOBOOL", construct=f"extra {w!r}")
-    # lookup shape
-    p0 = sb.posparams[0]
-    lookups = []
-    for n in sb.own_nodes():
-        key = None
-        if isinstance(n, ast.Call) and isinstance(n.func, ast.Attribute) and n.func.attr == "get" and isinstance(n.func.value, ast.Name) and n.func.value.id == "STRTOBOOL":
-            key = n.args[0] if n.args else None
-            if len(n.args) > 1 and not (isinstance(n.args[1], ast.Constant) and n.args[1].value is None):
-                ctx.violate("R2", "STRTOBOOL.get has a non-None default (a miss no longer raises)", sb, n)
-        elif isinstance(n, ast.Subscript) and isinstance(n.value, ast.Name) and n.value.id == "STRTOBOOL":
-            key = n.slice
-        if key is not None:
-            lookups.append((n, key))
-    if len(lookups) != 1:
-        ctx.violate("R2", f"expected exactly one STRTOBOOL lookup in strtobool, found {len(lookups)}", sb, sb.node, construct="lookups")
-    for n, key in lookups:
-        k = deref(sb, key)
-        good = isinstance(k, ast.Call) and isinstance(k.func, ast.Attribute) and k.func.attr == "lower" and isinstance(k.func.value, ast.Name) and k.func.value.id == p0 and not k.args
-        if good:
-            ctx.ok("R2", "lookup key is value.lower()", sb.where)
-        else:
-            ctx.violate("R2", f"lookup key is `{src_of(k)}`, not `{p0}.lower()` (accepts other/fewer strings than documented)", sb, n)
-    raises = [s for s in walk_stmts(sb.body) if isinstance(s, ast.Raise)]
-    if any(raises_class(r) == "ValueError" for r in raises):
-        ctx.ok("R2", "a miss raises ValueError", sb.where)
-    else:
-        ctx.violate("R2", "strtobool never raises ValueError", sb, sb.node, construct="no raise ValueError")
-    for n in sb.own_nodes():
-        if isinstance(n, ast.Return) and isinstance(n.value, ast.Constant):
-            ctx.violate("R2", "strtobool returns a constant (default answer for unknown words)", sb, n)
-        if isinstance(n, ast.Try):
-            for h in n.handlers:
-                if not any(isinstance(s, ast.Raise) for s in walk_stmts(h.body)):
-                    ctx.violate("R2", "exception handler in strtobool that does not re-raise", sb, h)
-
+    except (NotConstant, AnalysisError):
+        table_ok = False  # the vocabulary is not kept in a constant table: the evaluation below decides alone
+    if table_ok and isinstance(table, dict):
+        _check_strtobool_table(ctx, prog, um, sb, table)
     # the function itself, evaluated: every documented word in three letter cases, and foreign strings
     from ..accessors import AccessorEval as _AE, Raised as _Raised
     from ..symarr import NotSymbolic as _NS
@@ -340,7 +345,7 @@ def run(ctx):
                     got = f"raises {exc.args[0]}"
                 if got is not (w in DOC_TRUE):
                     badw = badw or f"strtobool({spelled!r}) gives {got!r}, documented {w in DOC_TRUE}"
-        for foreign in ("maybe", "", "2", "tru"):
+        for foreign in ("maybe", "", "2", "tru", "yellow", "tight", "none", "offset", "10", "yes!", "true ", " on", "nope", "falsey", "f1", "00", "y es"):
             nw += 1
             try:
                 got = _AE(prog, None).run_free(sb, [foreign], {})
@@ -353,7 +358,7 @@ def run(ctx):
     if badw:
         ctx.violate("R2", badw, sb, sb.node, construct=badw[:160])
     else:
-        ctx.ok("R2", f"strtobool evaluated on {nw} strings (every documented word in four letter cases, four foreign strings): documented value or ValueError", sb.where)
+        ctx.ok("R2", f"strtobool evaluated on {nw} strings (every documented word in four letter cases, seventeen foreign strings (words that only begin with, end with or contain a vocabulary word)): documented value or ValueError", sb.where)
 
     # ------------------------------------------------------------------ R3
     ctx.rule("R3", "volume() returns a non-negative quantity", "a left-handed or permuted cell gives a negative volume")
